@@ -8,5 +8,8 @@ CONSTANTS
   Spans = {0}
   YieldSets = {{}, {2}, {1, 3}}
   SplitKinds = {0}
+  TailSplitKinds = {0}
+  LateKinds = {0}
+  EmptyFeeds = TRUE
   Interleave = FALSE
 INVARIANTS TypeOK Lossless Contiguous FitsBudget SmallIsPure YieldStartsNewBatch
